@@ -40,6 +40,9 @@ type spelling struct {
 	refs  bool                  // uses back-references: reference mode only
 	self  int                   // reference index of the token's own value relative to base (field-name strings of a class come first)
 	den   den
+	// same names the spelling that writes the same value of the same kind in its plainest form: whatever the
+	// destination, the two spellings must give the same outcome (oracle 7)
+	same string
 }
 
 // den is the abstract value a spelling denotes
@@ -95,6 +98,25 @@ func spellings() []spelling {
 	addDbl("d-1e21", "d1e+21;", 1e21)
 	addDbl("d-0.1", "d0.1;", 0.1)
 	addDbl("d-neg-zero", "d-0;", math.Copysign(0, -1))
+	// other spellings of values above (what the writers of other languages emit: 0.0, 3.0, exponents)
+	alt := func(same string) { out[len(out)-1].same = same }
+	addInt("i-zero-long-form", "i0;", "0")
+	alt("digit-0")
+	addInt("l-zero", "l0;", "0")
+	alt("digit-0")
+	addDbl("d-zero", "d0;", 0)
+	addDbl("d-zero-point-zero", "d0.0;", 0)
+	alt("d-zero")
+	addDbl("d-zero-exponent", "d0e0;", 0)
+	alt("d-zero")
+	addDbl("d-neg-zero-point-zero", "d-0.0;", math.Copysign(0, -1))
+	alt("d-neg-zero")
+	addDbl("d-integral-point-zero", "d3.0;", 3)
+	alt("d-integral")
+	addDbl("d-integral-exponent", "d3e0;", 3)
+	alt("d-integral")
+	addDbl("d-fraction-exponent", "d35e-1;", 3.5)
+	alt("d-fraction")
 	addDbl("nan", "N", math.NaN())
 	addDbl("inf+", "I+", math.Inf(1))
 	addDbl("inf-", "I-", math.Inf(-1))
@@ -770,6 +792,37 @@ func runSpelling(si int) result {
 		tops[k] = o
 		return o
 	}
+	// (7) spelling independence: another spelling of the same value gives the same outcome in every destination,
+	// also in the cells whose outcome the conversion table leaves open
+	if sp.same != "" {
+		for _, y := range all {
+			if y.name != sp.same {
+				continue
+			}
+			for _, t := range destinations() {
+				if bt := t; bt.Kind() == reflect.String || (bt.Kind() == reflect.Ptr && bt.Elem().Kind() == reflect.String) {
+					continue // a string destination takes the text of a number as it is written: no canonical form
+				}
+				for _, simple := range []bool{true, false} {
+					a, b := topOf(sp, t, simple), topOf(y, t, simple)
+					res.Cases++
+					if a.Panic != "" || b.Panic != "" {
+						continue // oracle 3
+					}
+					if a.Err != b.Err || (!a.Err && a.Canon != b.Canon) {
+						as, bs := a.Canon, b.Canon
+						if a.Err {
+							as = "error " + a.Msg
+						}
+						if b.Err {
+							bs = "error " + b.Msg
+						}
+						add(fmt.Sprintf("C06|spelling-dependent|token-kind=%s|dest=%s", sp.den.kind, typeClass(t)), fmt.Sprintf("%q into %s (simple=%v) gives %s; %q, which writes the same value, gives %s", sp.bytes(0), t, simple, as, y.bytes(0), bs))
+					}
+				}
+			}
+		}
+	}
 	// (4) history independence
 	for _, y := range all {
 		if !pairWanted(sp, y, thorough) {
@@ -846,6 +899,15 @@ func runSpelling(si int) result {
 				if o.Panic != "" {
 					add(fmt.Sprintf("C06|panic|reference-to=%s|dest=%s", sp.den.kind, typeClass(t)), where+": panic: "+o.Panic)
 					continue
+				}
+				if t == iface && first == iface && !o.Err {
+					// the canonical form looks through pointers: the Go type an interface{} gets from the reference
+					// is the one it gets from the item itself (a list, not a pointer to a list)
+					if oa, va := decodeWire(sp.bytes(0), iface, false); !oa.Err && oa.Panic == "" && va.IsValid() && !va.IsNil() && !v.Field(1).IsNil() {
+						if ta, tb := va.Elem().Type(), v.Field(1).Elem().Type(); ta != tb {
+							add(fmt.Sprintf("C06|reference-gives-another-go-type|token-kind=%s|first=%s", sp.den.kind, typeClass(first)), where+fmt.Sprintf(": the interface{} holds a %s, the item itself decodes into interface{} as %s", tb, ta))
+						}
+					}
 				}
 				mode, want := expect(sp.den, t)
 				got := ""
